@@ -359,8 +359,16 @@ func (d *deriver) run(formatter string) (*Derived, error) {
 		"Execute": func(m *interp.Machine, pos token.Pos, args []interp.Value) (interp.Value, error) {
 			if len(args) == 2 {
 				d.ev("execute", "", args[0], args[1])
-				if s, ok := args[1].(*interp.Struct); ok {
+				switch s := args[1].(type) {
+				case *interp.Struct:
 					executed = s
+				case *interp.Ptr:
+					// text/template indirects a pointer to the data
+					executed = s.Elem
+					if executed.Aux == nil {
+						executed.Aux = map[string]interp.Value{}
+					}
+					executed.Aux["byPointer"] = true
 				}
 			}
 			return d.errVal("template execution"), nil
@@ -445,6 +453,32 @@ func (d *deriver) run(formatter string) (*Derived, error) {
 			}
 			return &interp.Ptr{Elem: sc}, nil
 		}
+	}
+	// reading an import's qualifier is an event: the real method is interpreted, the read is recorded
+	for _, form := range []string{"(*" + regPath + ".Package).Qualifier", "(" + regPath + ".Package).Qualifier"} {
+		form := form
+		var wrapper interp.ExtFunc
+		wrapper = func(m *interp.Machine, pos token.Pos, recv interp.Value, args []interp.Value) (interp.Value, error) {
+			who := "?"
+			switch r := recv.(type) {
+			case *interp.Ptr:
+				who = r.Elem.ID
+			case *interp.Struct:
+				who = r.ID
+			case interp.NilV:
+				who = "nil"
+			}
+			d.ev("qualifier", who)
+			fn := prog.LookupFunc(regPath, "Package.Qualifier")
+			if fn == nil {
+				return nil, &interp.ErrUndecided{Pos: pos, Msg: "Package.Qualifier not found"}
+			}
+			delete(m.Ext, form)
+			v, err := m.CallFunc(pos, fn, recv, args)
+			m.Ext[form] = wrapper
+			return v, err
+		}
+		d.m.Ext[form] = wrapper
 	}
 	mkPackage := func(pkg *interp.Opaque, alias string) *interp.Struct {
 		a := interp.Lit("")
